@@ -264,10 +264,11 @@ def run(ctx):
         ctx.add("C18.R8", AS + "::recover_measurements::{closure}#aux-some", False, "the reader never returns Some(aux)", at)
     else:
         fkey = rets[0]["frame"]
-        local = set()
+        local = set(some[3])          # facts the alternative itself carries (Option::filter / then_some ...)
         for (fk, b) in some[4]:
             if fk == fkey:
-                local |= set(eng.block_facts.get((fk, b), frozenset()))
+                local |= set(eng.block_facts.get((fk, Q.origin_block(b)), frozenset()))
+                local |= set(eng.model_alt_facts.get((fk, b), frozenset()))
         local = Q.closure(eng, local)
         conds = [f for f in local if f[0].op in ("eq", "ne", "lt", "le", "gt", "ge") and Q.contains(f[0], lambda t: t is plain)]
         # second chunk window
